@@ -2,7 +2,11 @@
    TRUSTED: hash_t is 'unsigned long' on this platform (symengine/basic.h: typedef uint64_t hash_t). */
 #ifndef VERIF_CORE_H
 #define VERIF_CORE_H
+#ifdef VERIF_HASH_BITS16
+typedef unsigned short hash_t;     /* narrowed model of hash_t, used only where stated (bounded stand-in, never counted as proved) */
+#else
 typedef unsigned long hash_t;
+#endif
 enum TypeID {
 #define SYMENGINE_INCLUDE_ALL
 #define SYMENGINE_ENUM(type, Class) type,
